@@ -268,6 +268,154 @@ def q23_emission(funcs, consts, out):
     return viol
 
 
+def h_fold_while(ex, path, vals, args):
+    # arbitrary result of the fold: Continue(acc) | Done(acc), acc = None | Some((start, len))
+    fw = z3.BitVec("fold_is_done", 8)
+    d = z3.BitVec("fold_acc_is_some", 8)
+    path.pc += [z3.Or(fw == 0, fw == 1), z3.Or(d == 0, d == 1)]
+    acc = S.enum(d, {1: [("TUPLE", [z3.BitVec("group_start", 32), z3.BitVec("group_len", 32)])]})
+    return S.enum(fw, {0: [acc], 1: [acc]})
+
+
+def h_into_inner(ex, path, vals, args):
+    v = args[0]
+    if not (isinstance(v, tuple) and v[0] == "ENUM"):
+        raise S.Unsupported("into_inner on %r" % (v,))
+    return v[2][0][0]            # both variants carry the same accumulator
+
+
+def h_range_next(ex, path, vals, args):
+    r = vals[0]
+    if not (isinstance(r, tuple) and r[0] == "REF"):
+        raise S.Unsupported("Range::next on %r" % (r,))
+    rng = path.env.get(r[1])
+    if not (isinstance(rng, tuple) and rng[0] == "TUPLE" and len(rng[1]) == 2):
+        raise S.Unsupported("Range::next on %r" % (rng,))
+    cur, end = rng[1]
+    more = z3.ULT(cur, end)
+    path.env[r[1]] = ("TUPLE", [z3.If(more, cur + 1, cur), end])
+    return S.enum(z3.If(more, z3.BitVecVal(1, 8), z3.BitVecVal(0, 8)), {1: [cur]})
+
+
+def h_pop_front(ex, path, vals, args):
+    n = path.env["@deque_len"]
+    path.env["@deque_len"] = z3.If(n == 0, n, n - 1)
+    path.env["@pops"] = path.env.get("@pops", 0) + 1
+    return S.enum(z3.If(n == 0, z3.BitVecVal(0, 8), z3.BitVecVal(1, 8)), {1: [("OPAQUE", "id")]})
+
+
+GROUP_OPAQUE = (
+    (r"^VecDeque::<u32>::iter$", "deque_iter", "unit"),
+    (r"as Itertools>::fold_while::<", "fold_while", h_fold_while),
+    (r"^FoldWhile::<Option<\(u32, NonZero<u32>\)>>::into_inner$", "into_inner", h_into_inner),
+    (r"^Vec::<\(u32, NonZero<u32>\)>::push$", "push_group", "unit"),
+    (r"^<std::ops::Range<u32> as IntoIterator>::into_iter$", "into_iter", "pass"),
+    (r"^<std::ops::Range<u32> as Iterator>::next$", "range_next", h_range_next),
+    (r"^VecDeque::<u32>::pop_front$", "pop_front", h_pop_front),
+)
+
+
+def q4_group_consumption(funcs, consts, out):
+    """the outer loop body of emit: the group found by the fold is recorded as it is, and exactly `len` ids
+    are then removed from the front of the remaining ids (two fragments: fold..range construction, and one
+    inductive step of the `for _ in 0..len` pop loop from an arbitrary iterator state)."""
+    fn = funcs.get("emit")
+    b_fold = None
+    b_next = None
+    for n, b in fn.blocks.items():
+        if b.cleanup or not b.term:
+            continue
+        if "as Itertools>::fold_while::<" in b.term[0]:
+            b_fold = n
+        if "<std::ops::Range<u32> as Iterator>::next(" in b.term[0]:
+            b_next = n
+    if b_fold is None or b_next is None:
+        raise S.Unsupported("emit: fold_while / pop loop not found")
+    import re as _re
+    t = fn.blocks[b_next].term[0]
+    ref_local = _re.search(r"next\((?:copy|move) (_\d+)\)", t).group(1)
+    it_local = None
+    for (text, _) in fn.blocks[b_next].stmts:
+        mm = _re.match(r"^%s = &mut (_\d+);$" % _re.escape(ref_local), text)
+        if mm:
+            it_local = mm.group(1)
+    if it_local is None:
+        raise S.Unsupported("Q4: iterator local of the pop loop not found")
+    # (a) from the fold call to the head of the pop loop
+    ex = S.SymExec(funcs, GROUP_OPAQUE, consts)
+    paths = ex.run(fn, b_fold, {"@deque_len": z3.BitVec("remaining_len", 64)}, stop=(b_next,))
+    viol = []
+    gs, gl = z3.BitVec("group_start", 32), z3.BitVec("group_len", 32)
+    reached = 0
+    for pa in paths:
+        if pa.outcome[0] == "PANIC":
+            # `expect("this must be Some if we still have remaining items")`: feasible only if the fold returned None,
+            # which fold_while cannot do on a non-empty deque (the closure returns Some on the first item: Q1)
+            r, m, s = check(pa.pc + [z3.BitVec("fold_acc_is_some", 8) == 1])
+            out["queries"].append(dict(q="Q4 emit loop body: panic only if the fold returned None (excluded by Q1 on a non-empty deque)", result=str(r), s=s))
+            if r != z3.unsat:
+                out["noverdict"].append("Q4: panic path feasible with a Some accumulator: %s" % (pa.outcome,))
+            continue
+        if pa.outcome[0] != "EXIT":
+            raise S.Unsupported("Q4 fragment (a) ends with %r" % (pa.outcome,))
+        reached += 1
+        pushes = [e for e in pa.events if e[0] == "push_group"]
+        rng = pa.env.get(it_local)
+        if len(pushes) != 1 or not (isinstance(rng, tuple) and rng[0] == "TUPLE" and len(rng[1]) == 2):
+            raise S.Unsupported("Q4: expected one recorded group and the removal range (%d, %r)" % (len(pushes), rng))
+        pushed = pushes[0][1][1]
+        cur, end = rng[1]
+        post = z3.And(pushed[1][0] == gs, pushed[1][1] == gl, cur == 0, end == gl)
+        r, m, s = check(pa.pc + [z3.Not(post)])
+        out["queries"].append(dict(q="Q4 emit loop body: the fold's (start, len) is the recorded group and the removal loop runs over 0..len", result=str(r), s=s))
+        if r == z3.sat:
+            viol.append(dict(label="emit records a different group than the fold found, or removes a different number of ids", line=None,
+                             assignment=dict(start=0, len=3, extra=[5, 6, 9, 10, 11])))
+        elif r != z3.unsat:
+            out["noverdict"].append("Q4a: solver %s" % r)
+    # (b) one step of the pop loop from an arbitrary iterator state
+    ex = S.SymExec(funcs, GROUP_OPAQUE, consts)
+    cur0, end0, d0 = z3.BitVec("iter_cur", 32), z3.BitVec("iter_end", 32), z3.BitVec("remaining_len", 64)
+    ret_bb = _re.search(r"-> \[return: (bb\d+)", t).group(1)
+    msw = _re.match(r"^switchInt\(.+?\) -> \[(.*)\];$", fn.blocks[ret_bb].term[0])
+    arms = dict(x.split(": ") for x in msw.group(1).split(", "))
+    b_after = arms["0"]                     # Range::next() == None: the removal loop is left
+    paths2 = ex.run(fn, b_next, {it_local: ("TUPLE", [cur0, end0]), "@deque_len": d0}, stop=(b_next, b_after))
+    steps = set()
+    for pa in paths2:
+        if pa.outcome[0] in ("PANIC", "UNREACHABLE"):
+            r, m, s = check(pa.pc)
+            out["queries"].append(dict(q="Q4 pop loop step: %s path infeasible" % pa.outcome[0].lower(), result=str(r), s=s))
+            if r != z3.unsat:
+                out["noverdict"].append("Q4b: %s" % (pa.outcome,))
+            continue
+        pops = pa.env.get("@pops", 0)
+        if pa.outcome[0] == "EXIT" and pa.outcome[1] == b_next:
+            steps.add("step")
+            itv = pa.env[it_local][1]
+            post = z3.And(z3.ULT(cur0, end0), itv[0] == cur0 + 1, itv[1] == end0, z3.BoolVal(pops == 1),
+                          pa.env["@deque_len"] == z3.If(d0 == 0, d0, d0 - 1))
+            what = "one iteration: only while cur < end, advances the counter by one and removes exactly one id"
+            r, m, s = check(pa.pc + [z3.Not(post)])
+            out["queries"].append(dict(q="Q4 pop loop step: " + what, result=str(r), s=s))
+            if r == z3.sat:
+                viol.append(dict(label="emit's removal loop: %s fails" % what, line=None, assignment=dict(start=0, len=3, extra=[5, 6, 9, 10, 11])))
+            elif r != z3.unsat:
+                out["noverdict"].append("Q4b: solver %s" % r)
+        else:
+            steps.add("exit")
+            post = z3.And(z3.UGE(cur0, end0), z3.BoolVal(pops == 0), pa.env["@deque_len"] == d0)
+            r, m, s = check(pa.pc + [z3.Not(post)])
+            out["queries"].append(dict(q="Q4 pop loop step: the loop is left only when cur >= end, removing nothing on the way out", result=str(r), s=s))
+            if r == z3.sat:
+                viol.append(dict(label="emit's removal loop leaves early or removes an id while leaving", line=None, assignment=dict(start=0, len=3, extra=[5, 6, 9, 10, 11])))
+            elif r != z3.unsat:
+                out["noverdict"].append("Q4b: solver %s" % r)
+    out["witness"].append(dict(q="Q4 reached fold->loop paths: %d; pop loop outcomes %s" % (reached, sorted(steps)), ok=reached >= 1 and steps == {"step", "exit"}))
+    out["functions"].append("cpulist::emit, blocks %s..%s (group found -> removal loop) and one step of the removal loop at %s (MIR)" % (b_fold, b_next, b_next))
+    return viol
+
+
 def replay(assign, repo):
     """native replay of an assignment with start/len: run of ids through the public API"""
     nd = os.path.join(M.VERIF, "native", "cpulist_emit_replay")
@@ -292,7 +440,7 @@ def replay(assign, repo):
     start, ln = assign["start"], assign["len"]
     if ln > 4096:
         return dict(skipped="run of %d ids is too long to replay natively" % ln)
-    extra = []
+    extra = [str(x) for x in assign.get("extra", [])]
     if "p" in assign and "acc" in assign:
         # grouping-step assignment: ids = the run plus the next id p
         extra = [str(assign["p"])]
@@ -341,7 +489,7 @@ def main():
         print(json.dumps(out))
         return
     viol = []
-    for q in (q1_closure, q23_emission):
+    for q in (q1_closure, q23_emission, q4_group_consumption):
         try:
             viol += q(funcs, consts, out)
         except S.Unsupported as e:
